@@ -235,7 +235,7 @@ class FloatAnalysis:
         self.param = self.fn.args.args[0].arg
         known = set(SCI) | {q}
         follow = lambda name: name not in known          # noqa: E731  (the scientific helpers stay calls: C12-R2 decides them)
-        eng = Engine(ctx, BULK, self.fn, param=self.param, inline=follow)
+        eng = Engine(ctx, BULK, self.fn, param=self.param, inline=follow, strict_locals=True)
         leaves = eng.run()
         self.leaves = expand_helpers(ctx, leaves, self.param, known, inline=follow)
         self.cases = {}          # id(leaf) -> [(Reg, final models or None, inner models or None)]
@@ -365,9 +365,35 @@ def exp_int(v, param):
     return isinstance(v, IntOf) and isinstance(v.x, Piece) and v.x.which == "tail" and efmt_of(v.x, param) is not None
 
 
+def exp_unsigned_text(v, param):
+    """the exponent text of an exponent-format rendering without its sign ('05', '125'): `tail[1:]`, `tail.lstrip('+-')`"""
+    if isinstance(v, Slice) and as_int(v.lo) == 1 and v.hi is None:
+        v = v.s
+    elif isinstance(v, Strip) and v.side in ("b", "l") and v.chars is not None and v.chars and set(v.chars) <= set("+- "):
+        v = v.s
+    else:
+        return False
+    return isinstance(v, Piece) and v.which == "tail" and efmt_of(v, param) is not None
+
+
+def exp_digits_or_empty(v, param):
+    """the digits of |exponent| read off the exponent text with the leading zeros stripped: '' when the exponent is 0"""
+    if isinstance(v, Strip) and v.side in ("b", "l") and v.chars is not None and "0" in v.chars:
+        if set(v.chars) == {"0"} and exp_unsigned_text(v.s, param):
+            return True
+        if {"+", "-", "0"} <= set(v.chars) and set(v.chars) <= set("+-0 ") and isinstance(v.s, Piece) and v.s.which == "tail" and efmt_of(v.s, param) is not None:
+            return True
+    return False
+
+
 def exp_digits(v, param):
     """text of |exponent| without sign and leading zeros"""
     from .c12_str import _int_piece
+    ip0 = _int_piece(v)
+    if isinstance(ip0, IntOf) and exp_unsigned_text(ip0.x, param):
+        return True                                  # str(int(tail[1:]))
+    if exp_digits_or_empty(v, param):
+        return True                                  # (the empty case is decided by the rule's oracle before the text is used)
     if isinstance(v, Strip) and v.side in ("b", "l") and v.chars is not None and "-" in v.chars and set(v.chars) <= set("-+ "):
         ip = _int_piece(v.s)                         # str(e), '%d' % e, f'{e}', '{:d}'.format(e) ... are the same text
         if ip is not None and exp_int(ip, param):
@@ -421,7 +447,13 @@ class SciRun:
         self.fn = fn
         self.param = param = fn.args.args[0].arg
 
+        one, ten = Fraction(1), Fraction(10)
+        expzero = iv.lo is not None and iv.hi is not None and ((iv.lo >= one and iv.hi <= ten) or (iv.lo >= -ten and iv.hi <= -one))
+        self.expzero = expzero
+
         def length(v, st, eng):
+            if expzero and exp_digits_or_empty(v, param):
+                return Fraction(0)                   # the exponent is 0: nothing is left of its text once the zeros are stripped
             if exp_digits(v, param):
                 return Fraction(e)
             from .c12_str import _int_piece
@@ -454,7 +486,18 @@ class SciRun:
         def sign_char(v):
             return isinstance(v, Slice) and v.lo is None and as_int(v.hi) == 1 and exp_text(v.s)
 
+
         def cond(test, st, eng):
+            if isinstance(test, (ast.Name, ast.Subscript, ast.Call, ast.Attribute)):
+                v = eng.ev(test, st)
+                if exp_digits_or_empty(v, param):
+                    return not expzero               # the digit text is empty exactly when the exponent is 0
+            if isinstance(test, ast.Compare) and len(test.ops) == 1 and isinstance(test.ops[0], (ast.Eq, ast.NotEq)):
+                a, b = eng.ev(test.left, st), eng.ev(test.comparators[0], st)
+                if isinstance(a, Lit):
+                    a, b = b, a
+                if exp_digits_or_empty(a, param) and b == Lit(""):
+                    return expzero == isinstance(test.ops[0], ast.Eq)
             if isinstance(test, ast.Call) and isinstance(test.func, ast.Attribute) and test.func.attr == "startswith" and len(test.args) == 1:
                 v = eng.ev(test, st)
                 if isinstance(v, Opaque) and v.name == ".startswith" and len(v.args) == 2 and exp_text(v.args[0]) and v.args[1] in (Lit("-"), Lit("+")):
@@ -478,6 +521,8 @@ class SciRun:
                     return None
                 tot += w
             return tot
+        if self.expzero and exp_digits_or_empty(v, param):
+            return 0
         if exp_digits(v, param):
             return self.e
         from .c12_str import _int_piece
@@ -512,6 +557,8 @@ class SciRun:
         for p in parts:
             if isinstance(p, Lit):
                 out.append(("lit", p.s))
+            elif self.expzero and exp_digits_or_empty(p, self.param):
+                out.append(("no exponent digit", p))      # the exponent 0 stripped to nothing
             elif exp_digits(p, self.param):
                 out.append(("exp", p))
             elif fixed_models(p, Reg(self.neg, 1), mantissa_kind(self.param)) is not None:
